@@ -179,6 +179,7 @@ def run(rec, hub, tier, seed, shard, nshards, budget):
     fd = hub.fd
     arith.register(hub)
     rec.require("large-arrays", 5)
+    rec.require("scalar-results", 20)
     rec.set_case(driver="c01.big", seed=seed, tier=tier, shard=shard, nshards=nshards, idx=shard)
     big_cases(rec, hub, case_nprng(seed, "c01.big", shard, 0), 4 if tier == "quick" else 8)
     if shard == 0:
